@@ -926,7 +926,7 @@ func runContainUnit(u unit) error {
 	if pval2 != nil || !without.completed || without.overall != "SUCCEEDED" || !strings.HasPrefix(without.healthy, "status=SUCCEEDED packages=[") || strings.HasSuffix(without.healthy, "packages=[]") {
 		return harnessErr{fmt.Sprintf("contain: reference scan without the bad file is not healthy: overall=%s %s", without.overall, without.healthy)}
 	}
-	obs := fmt.Sprintf("with bad file: completed=%v overall=%s healthy{%s} bad-status=%d; without: healthy{%s}", with.completed, with.overall, with.healthy, with.badStatus, without.healthy)
+	obs := fmt.Sprintf("with bad file: completed=%v overall=%s healthy{%s} bad-status=%s; without: healthy{%s}", with.completed, with.overall, with.healthy, statusName(with.badSeen, with.badStatus), without.healthy)
 	switch {
 	case !with.completed:
 		send(msg{T: "viol", Key: u.Ex + ":contain:scan-incomplete", Seq: u.Seq, What: "Scan returned no result " + rp()})
@@ -935,10 +935,17 @@ func runContainUnit(u unit) error {
 			What: fmt.Sprintf("results of %s changed: with the bad file %s, without %s %s", hName, with.healthy, without.healthy, rp())})
 	case required && (!with.badSeen || (with.badStatus != plugin.ScanStatusFailed && with.badStatus != plugin.ScanStatusPartiallySucceeded)):
 		send(msg{T: "viol", Key: u.Ex + ":contain:failure-not-in-status", Seq: u.Seq,
-			What: fmt.Sprintf("Extract returned an error for this file but the scan reports status %d for %s %s", with.badStatus, u.Ex, rp())})
+			What: fmt.Sprintf("Extract returned an error for this file but the scan reports status %s for %s %s", statusName(with.badSeen, with.badStatus), u.Ex, rp())})
 	}
 	send(msg{T: "contain", Obs: obs})
 	return nil
+}
+
+func statusName(seen bool, st plugin.ScanStatusEnum) string {
+	if !seen {
+		return "ABSENT"
+	}
+	return (&plugin.ScanStatus{Status: st}).String()
 }
 
 func keys(m map[string]bool) []string {
